@@ -106,6 +106,12 @@ impl Block {
     }
 }
 
+/// Verification hook: the scalar implementation, whatever the CPU supports.
+#[cfg(polytune_verif)]
+pub(crate) fn verif_clmul_scalar(a: u128, b: u128) -> (u128, u128) {
+    scalar::clmul128(a, b)
+}
+
 #[cfg(any(target_arch = "x86", target_arch = "x86_64"))]
 mod clmul {
     #[cfg(target_arch = "x86")]
